@@ -10,7 +10,7 @@ use lsp_types::{
     Position, PublishDiagnosticsParams, Range, Url,
 };
 use mos_core::errors::Diagnostics;
-use std::collections::HashMap;
+use std::collections::{BTreeSet, HashMap};
 
 pub struct DidOpenTextDocumentHandler;
 pub struct DidChangeTextDocumentHandler;
@@ -56,31 +56,42 @@ fn register_document(ctx: &mut LspContext, uri: &Url, source: &str) {
     ctx.perform_codegen();
 }
 
-fn publish_diagnostics(ctx: &LspContext) -> MosResult<()> {
+fn publish_diagnostics(ctx: &mut LspContext) -> MosResult<()> {
     log::trace!("Publish diagnostics");
 
     let mut result: HashMap<String, Vec<Diagnostic>> =
         to_diagnostics(&ctx.error).into_iter().into_group_map();
 
     // Grab all the files in the project
-    if let Some(tree) = ctx.tree.as_ref() {
-        let filenames = tree
-            .code_map
-            .files()
-            .iter()
-            .map(|file| file.name().to_string())
-            .collect_vec();
+    let mut filenames: BTreeSet<String> = ctx
+        .tree
+        .as_ref()
+        .map(|tree| {
+            tree.code_map
+                .files()
+                .iter()
+                .map(|file| file.name().to_string())
+                .collect()
+        })
+        .unwrap_or_default();
 
-        // Publish errors (or no errors!) for every file
-        for filename in filenames {
-            let diags = result.remove(filename.as_str()).unwrap_or_default();
-            let params = PublishDiagnosticsParams::new(
-                Url::from_file_path(filename).unwrap(),
-                diags,
-                None, // todo: handle document version
-            );
-            ctx.publish_notification::<PublishDiagnostics>(params)?;
+    // ...and the files that have errors, and the files we reported errors for earlier: they may not be part of the
+    // project anymore (e.g. the import was removed) and then their errors need to be cleared
+    filenames.extend(result.keys().cloned());
+    filenames.extend(ctx.files_with_diagnostics.drain());
+
+    // Publish errors (or no errors!) for every file
+    for filename in filenames {
+        let diags = result.remove(filename.as_str()).unwrap_or_default();
+        if !diags.is_empty() {
+            ctx.files_with_diagnostics.insert(filename.clone());
         }
+        let params = PublishDiagnosticsParams::new(
+            Url::from_file_path(filename).unwrap(),
+            diags,
+            None, // todo: handle document version
+        );
+        ctx.publish_notification::<PublishDiagnostics>(params)?;
     }
     Ok(())
 }
